@@ -177,6 +177,8 @@ class CFG:
             self._connect(front, head)
             loop = _Loop(head)
             t, f = self._cond(st.test, [(head, None)])
+            if isinstance(st.test, ast.Constant) and st.test.value:
+                f = []          # `while True:` is left only by break/return
             self._stack.append(loop)
             body_out = self._stmts(st.body, t)
             self._stack.pop()
